@@ -727,6 +727,13 @@ class _ExprNorm(ast.NodeTransformer):
             return ast.copy_location(new, node)
         return node
 
+    def visit_IfExp(self, node):
+        self.generic_visit(node)
+        # x if x else y  ->  x or y
+        if u(node.test) == u(node.body) and norm.is_reference(node.test):
+            return ast.copy_location(ast.BoolOp(op=ast.Or(), values=[node.body, node.orelse]), node)
+        return node
+
     def visit_BinOp(self, node):
         self.generic_visit(node)
         # [a] + b  -> [a, *b]   (b a list expression);  [..] + [..] -> [.., ..]
